@@ -109,6 +109,11 @@ SNIPPETS = [
     'match a:\n    case (1, 2): pass\n    case [1, [2, 3]]: pass\n    case -1: pass\n    case 1+2j: pass\n    case "s" "t": pass\n    case {1: _}: pass\n    case C(): pass\n    case (a): pass\n    case *_, : pass\n',
     'while True:\n    pass\nelse:\n    pass\n',
     'x = a if b else c, d',
+    '@deco(f(a),\n      b)\n@other(\n    c\n)\ndef g(): pass',
+    '@reg(\n    k(1), m[2]\n)\nclass K: pass',
+    "x = f'é{a = }'",
+    "print(f'日本語: {a+b=}', f'{x !r:>{w}} ü {y+1=:>5}')",
+    "s = f'''ñ{\n  a +\n  b = } {c}'''",
     'x = yield_ = [(yield) for _ in ()] if 0 else 0' .replace('[(yield) for _ in ()]', '[]'),
 ]
 
